@@ -17,7 +17,7 @@ Both return new trees; line numbers of copied nodes are those of their origin (r
 import ast
 import copy
 
-from .program import dotted
+from .program import dotted, norm
 
 _SIMPLE = (ast.Assign, ast.AugAssign, ast.AnnAssign, ast.Expr, ast.Return)
 
@@ -625,6 +625,48 @@ def append_helper_bodies(fn, lookup, depth=2):
             extra.extend(body)
             work.append((holder, d - 1))
     new.body = list(new.body) + extra
+    ast.fix_missing_locations(new)
+    return new
+
+
+def desugar_pairwise(fn):
+    """Copy of fn in which 'for [i,] (lo, hi) in [enumerate(]zip(E[:-1], E[1:])[)]' reads 'for i in range(len(E) - 1)' with lo -> E[i] and
+    hi -> E[i + 1] in the body: consecutive pairs of one array, spelled the way the index form spells them."""
+    new = copy.deepcopy(fn)
+    k = [0]
+
+    def pairs(it):
+        if isinstance(it, ast.Call) and dotted(it.func) == 'zip' and len(it.args) == 2 and all(isinstance(a, ast.Subscript) and isinstance(a.slice, ast.Slice)
+                                                                                              for a in it.args):
+            a, b = it.args
+            if norm(a.value) == norm(b.value) and a.slice.lower is None and norm(a.slice.upper or ast.Constant(value=0)) == '-1' and a.slice.step is None \
+                    and norm(b.slice.lower or ast.Constant(value=0)) == '1' and b.slice.upper is None and b.slice.step is None:
+                return a.value
+        return None
+
+    for lp in [l for l in ast.walk(new) if isinstance(l, ast.For)]:
+        it, tg = lp.iter, lp.target
+        idx = None
+        if isinstance(it, ast.Call) and dotted(it.func) == 'enumerate' and len(it.args) == 1 and isinstance(tg, ast.Tuple) and len(tg.elts) == 2 \
+                and isinstance(tg.elts[0], ast.Name):
+            idx, it, tg = tg.elts[0].id, it.args[0], tg.elts[1]
+        base = pairs(it)
+        if base is None or not (isinstance(tg, ast.Tuple) and len(tg.elts) == 2 and all(isinstance(e, ast.Name) for e in tg.elts)):
+            continue
+        if idx is None:
+            k[0] += 1
+            idx = '__p%d_i' % k[0]
+        lo, hi = tg.elts[0].id, tg.elts[1].id
+        sub = {lo: ast.Subscript(value=copy.deepcopy(base), slice=ast.Name(id=idx, ctx=ast.Load()), ctx=ast.Load()),
+               hi: ast.Subscript(value=copy.deepcopy(base), slice=ast.BinOp(left=ast.Name(id=idx, ctx=ast.Load()), op=ast.Add(), right=ast.Constant(value=1)),
+                                 ctx=ast.Load())}
+        if any(isinstance(x, ast.Name) and isinstance(x.ctx, ast.Store) and x.id in (lo, hi) for b_ in lp.body for x in ast.walk(b_)):
+            continue
+        lp.body = [_Subst(sub).visit(st) for st in lp.body]
+        lp.target = ast.Name(id=idx, ctx=ast.Store())
+        lp.iter = ast.Call(func=ast.Name(id='range', ctx=ast.Load()),
+                           args=[ast.BinOp(left=ast.Call(func=ast.Name(id='len', ctx=ast.Load()), args=[copy.deepcopy(base)], keywords=[]),
+                                           op=ast.Sub(), right=ast.Constant(value=1))], keywords=[])
     ast.fix_missing_locations(new)
     return new
 
